@@ -295,7 +295,7 @@ class Scenario:
         return a
 
     # ---- upstream-side handshake scripts (what the fake upstream does before acting as origin)
-    def upstream_handshake(self, cinfo, reply_ok=True):
+    def upstream_handshake(self, cinfo, reply_ok=True, reply_atyp=1):
         k = cinfo["kind"]
         if k in ("http", "quic"):
             resp = b"HTTP/1.1 200 Connection established\r\n\r\n" if reply_ok else b"HTTP/1.1 403 Forbidden\r\nContent-Length: 0\r\n\r\n"
@@ -305,7 +305,7 @@ class Scenario:
                 return [op("recv_socks4_request", label="upreq"), send(bytes([0, 90 if reply_ok else 91, 0, 0, 0, 0, 0, 0]))]
             nm = 2 if cinfo.get("auth") else 1
             return [op("recv_n", n=2 + nm, label="upgreet"), send(b"\x05\x00"), op("recv_socks5_reply", label="upreq"),
-                    send(bytes([5, 0 if reply_ok else 5, 0, 1, 0, 0, 0, 0, 0, 0]))]
+                    send(bytes([5, 0 if reply_ok else 5, 0]) + {1: bytes([1, 0, 0, 0, 0]), 4: bytes([4]) + bytes(16), 3: bytes([3, 9]) + b"bound.sim"}[reply_atyp] + bytes([0, 0]))]
         return []
 
     def add_origin(self, addr, conns=None, default_ops=None, oid=None, tls=None, **kw):
